@@ -183,10 +183,14 @@ def run_parser(I, name, text, **kwargs):
         errs = [e[2] for e in I.effects if e[0] == "report" and e[1] in ("error", "critical")][n0:]
         return r, ctx.fields["pos"], errs, raised
     from ..engine.interp import StepBudget
+    if I.__dict__.get("_nonterminations", 0) >= 3:
+        # this parser has already failed to end on three texts in this run: every further text would wait for the same budget
+        return None, 0, [], "NonTermination (not run: the parser did not end on three earlier texts of this run)"
     try:
         ps = I.explore(thunk)
     except StepBudget:
         # concrete text, deterministic parser: the loop does not end
+        I.__dict__["_nonterminations"] = I.__dict__.get("_nonterminations", 0) + 1
         return None, 0, [], "NonTermination (no end within 400000 statements: the parser loops on this text)"
     if len(ps) != 1 or ps[0].kind != "return":
         raise Unknown(f"parser {name} on {text!r}: {ps}")
